@@ -247,3 +247,16 @@ def check(led):
     if only:
         jobs = [j for j in jobs if j[0] in only.split(',')]
     parallel.run(led, _job, jobs)
+    fails = [f for f in getattr(led, 'failed', []) if f.get('replay') is None and 'conecyl.py' in f['function']]
+    if fails:
+        from .. import pyreplay, shell_oracle as O
+        pay = dict(m1=2, m2=2, n2=2, r2=250., H=500., laminaprop=[123.55e3, 8.708e3, 0.319, 5.695e3, 5.695e3, 5.695e3], stack=[30, -30, 45], plyt=0.125,
+                   models=['clpt_donnell_bc1', 'clpt_sanders_bc2', 'iso_clpt_donnell_bc3', 'fsdt_donnell_bc3'])
+        try:
+            r = pyreplay.run_real(O.LINMAT, pay, timeout=900)
+            rep = {'reproduced': bool(r.get('n_mismatch')) or bool(r.get('raised')), 'input': pay, 'result': r,
+                   'real_function': 'ConeCyl._calc_linear_matrices vs the kernels of modelDB called directly'}
+        except Exception as e:
+            rep = {'reproduced': False, 'replay_error': repr(e)}
+        for f in fails:
+            f['replay'] = rep
